@@ -7,6 +7,7 @@ package main
 import (
 	"bytes"
 	"fmt"
+	"time"
 	"math/big"
 	"strings"
 
@@ -57,13 +58,35 @@ type caps struct {
 
 var capCache = map[string]*caps{}
 
+// hungProbes lists capability probes (Base, Pick on a seeded stream) that did not return.
+var hungProbes []string
+
+// reportHungProbes turns hung probes into violations (a hang of Pick/Base on a seeded stream is never allowed).
+func reportHungProbes(c *kc.Ctx) {
+	for _, h := range hungProbes {
+		c.Violation("hang:"+h, "operation did not return within 30s on a seeded (non-constant) stream: "+h, map[string]string{"probe": h})
+	}
+}
+
 func groupCaps(g *groups.G) *caps {
 	if c, ok := capCache[g.Name]; ok {
 		return c
 	}
 	c := &caps{}
-	c.base = kc.Recover(func() string { g.Group.Point().Base(); g.Group.Point().Mul(g.Group.Scalar().One(), nil); return "ok" }) == "ok"
-	c.pick = kc.Recover(func() string { g.Group.Point().Pick(kc.NewRng(1)); return "ok" }) == "ok"
+	probe := func(what string, f func()) bool {
+		ch := make(chan string, 1)
+		go func() { ch <- kc.Recover(func() string { f(); return "ok" }) }()
+		select {
+		case r := <-ch:
+			return r == "ok"
+		case <-time.After(30 * time.Second):
+			// a hang in a basic operation on fixed inputs: recorded, reported by every check using the group
+			hungProbes = append(hungProbes, g.Name+":"+what)
+			return false
+		}
+	}
+	c.base = probe("Base/Mul(1,nil)", func() { g.Group.Point().Base(); g.Group.Point().Mul(g.Group.Scalar().One(), nil) })
+	c.pick = probe("Pick", func() { g.Group.Point().Pick(kc.NewRng(1)) })
 	c.le = g.Group.Scalar().ByteOrder() == kyber.LittleEndian
 	c.scSize = g.Group.Scalar().MarshalSize()
 	if c.base {
